@@ -99,7 +99,7 @@ Definition timed_spec {K : carrier} {Tm : Type} (absdiff : Tm -> Tm -> Tm) (t0 :
 (* a document is a list of multisets; a context is a pair (multiset index q, slot s').  The window of the target
    (m, s) is its own multiset (distance 0, its own slot excluded) and the next / previous R multisets at
    distances 1..R; every token of a multiset at distance k gets the kernel value b_kf k; `offset` removes the first
-   `offset` distances (0 .. offset-1). *)
+   `offset` distances (0 .. offset-1); a target that is the (nullified) mask has no contexts at all. *)
 Section MSpec.
 Context {K : carrier}.
 Variable doc : list (list nat).
@@ -111,6 +111,7 @@ Definition m_in (b : block K) (R m q : nat) : bool := Nat.eqb q m || in_win (b_r
 
 Definition m_raw (b : block K) (m s q s' : nat) : K :=
   if (dist m q <? b_off b) || is_mask (b_mask b) (mtok q s') || (Nat.eqb q m && Nat.eqb s' s)
+     || is_mask (b_mask b) (mtok m s)
   then zero else b_kf b (dist m q).
 
 (* Σ over the (multiset, slot) pairs of the window *)
